@@ -1,4 +1,9 @@
 import Bifrost.Model.Links
-/-! Helper lemmas for C04 and C06 (link-table invariants, refinement to the live-set spec). -/
+import Bifrost.Lemmas.LinksBasic
+import Bifrost.Lemmas.LinksInv
+import Bifrost.Lemmas.LinksFacts
+/-! Helper lemmas for C04 and C06 (link-table invariants, refinement to the live-set spec).
+The content lives in `LinksBasic` (histories, lookup, flush) `LinksInv` (the invariant) and
+`LinksFacts` (consequences used by the statements). -/
 namespace Bifrost
 end Bifrost
